@@ -165,6 +165,45 @@ func cmdCheck(args []string) int {
 			pathCuts += fx.pathCuts
 		}
 	}
+	// requires-propagation: every function in the loaded packages that calls a function whose
+	// contract (in this property's list) has a precondition is verified too, so that a new,
+	// unguarded path to it is an obligation even if that caller has no contract of its own.
+	// Only the call-site obligations of those callers are kept.
+	listed := map[string]bool{}
+	for _, k := range ps.Functions {
+		listed[k] = true
+	}
+	var propagated []string
+	for _, caller := range g.callersOfRequiring(ps.Functions) {
+		if listed[caller] {
+			continue
+		}
+		os, fx := g.VerifyFunction(caller)
+		kept := 0
+		for _, o := range os {
+			if o.Kind == "requires-callsite" || o.Kind == "unsupported" {
+				keep := o.Kind == "unsupported"
+				for _, k := range ps.Functions {
+					if strings.Contains(o.Name, "#call."+k+".") {
+						keep = true
+					}
+				}
+				if keep {
+					obls = append(obls, o)
+					kept++
+				}
+			}
+		}
+		if kept > 0 {
+			propagated = append(propagated, caller)
+			if fx != nil {
+				for k := range fx.assumed {
+					assumed[k] = true
+				}
+			}
+		}
+	}
+	sort.Strings(propagated)
 	for _, ln := range ps.Lemmas {
 		obls = append(obls, g.LemmaObligation(ln))
 	}
@@ -295,6 +334,7 @@ func cmdCheck(args []string) int {
 		"checker_cmd":              fmt.Sprintf("bin/govc check %s --tier %s", pid, *tier),
 		"trusted_base":             []string{"go/ssa + go/types (x/tools v0.50.0, go1.26.8)", "govc VC generator (/verif/govc)", "z3 5.1.0 / z3 4.8.12 / cvc5 1.0 (first to answer)", "assumed contracts listed under assumptions"},
 		"functions_under_contract": functions,
+		"callers_checked_by_requires_propagation": propagated,
 		"per_obligation":           evid,
 		"backends":                 backends,
 		"solver_time_s":            round3(solverTime),
